@@ -39,7 +39,7 @@ var Kinds = []string{
 	"binding",            // which task a call resolves to (GetTask)
 	"var-value",          // values of the variables / env of a compiled task (Fast and full)
 	"compiled-var-order", // order of the non-special variables inside a compiled task's Vars
-	"special-var-order",  // order of the special variables (TASK, ROOT_DIR, ...) inside a compiled task's Vars
+	"special-var-order",  // order of the special variables (TASK, ROOT_DIR, ...) inside a compiled task's Vars (observed, not judged)
 	"cmd-line",           // command lines / call targets / deps / dir of a compiled task
 	"compile-error",      // error text of FastCompiledTask / CompiledTask
 	"dry-run",            // output and error of the dry run
@@ -79,3 +79,11 @@ type Out struct {
 	Results []*TreeResult `json:"results"`
 	Events  int64         `json:"events"` // hook arrivals seen
 }
+
+// ObservedOnly lists the kinds that are recorded in the evidence but never
+// turned into a violation, because the property statement does not cover them:
+// it demands "the same set and order of tasks, the same aliases, and the same
+// variable values and command lines for every task"; the position of TASK,
+// ROOT_DIR, ... inside a compiled task's variable set is none of these and is
+// not observable through any value, command line or output.
+var ObservedOnly = map[string]bool{"special-var-order": true}
